@@ -1,6 +1,7 @@
 """Per-property plans: which bounded models, simulator families and generated-case suites decide each property."""
 import json
 import os
+import re
 import sys
 import time
 
@@ -15,10 +16,10 @@ PLANS = {
     "C04": dict(models=dict(quick=[], thorough=[("MC_HRaft.tla", "MC_Replication.cfg", 900)]), families=dict(quick=[("chaos", 16, 500), ("snap", 12, 400)], thorough=[("chaos", 200, 800), ("snap", 120, 600), ("restart", 80, 600)]), suites=["l2:ae"]),
     "C05": dict(models=dict(quick=[("MC_HRaft.tla", "MC_Replication_q.cfg", 300)], thorough=[("MC_HRaft.tla", "MC_Replication.cfg", 900), ("MC_HRaft.tla", "MC_Membership.cfg", 1200)]), families=dict(quick=[("chaos", 20, 500), ("member", 16, 400), ("figure8", 8, 0)], thorough=[("chaos", 160, 800), ("member", 120, 600), ("figure8", 64, 0)]), suites=["l1:commitment"]),
     "C06": dict(models=dict(quick=[("MC_HRaft.tla", "MC_Crash_q.cfg", 300)], thorough=[("MC_HRaft.tla", "MC_Crash.cfg", 900), ("MC_HRaft.tla", "MC_Election.cfg", 900)]), families=dict(quick=[("elect", 16, 400)], thorough=[("elect", 240, 600), ("chaos", 80, 600)]), suites=["l2:vote", "l2:vote2"]),
-    "C07": dict(models=dict(quick=[("MC_HRaft.tla", "MC_Membership_q.cfg", 300)], thorough=[("MC_HRaft.tla", "MC_Membership.cfg", 1200)]), families=dict(quick=[("member", 32, 400)], thorough=[("member", 240, 600)]), suites=["l1:configuration"]),
+    "C07": dict(models=dict(quick=[("MC_HRaft.tla", "MC_Membership_q.cfg", 300)], thorough=[("MC_HRaft.tla", "MC_Membership.cfg", 1200)]), families=dict(quick=[("member", 24, 400), ("cfgtrunc", 8, 0), ("snapmember", 8, 400)], thorough=[("member", 240, 600), ("cfgtrunc", 32, 0), ("snapmember", 80, 500)]), suites=["l1:configuration"]),
     "C08": dict(families=dict(quick=[("client", 32, 400)], thorough=[("client", 240, 600), ("chaos", 80, 600)])),
     "C09": dict(families=dict(quick=[("verify", 32, 400), ("member", 8, 400)], thorough=[("verify", 240, 600), ("member", 80, 500)])),
-    "C10": dict(models=dict(quick=[], thorough=[("MC_HRaft.tla", "MC_Crash.cfg", 900)]), families=dict(quick=[("restart", 32, 400)], thorough=[("restart", 240, 600), ("snap", 80, 600)])),
+    "C10": dict(models=dict(quick=[], thorough=[("MC_HRaft.tla", "MC_Crash.cfg", 900)]), families=dict(quick=[("restart", 24, 400)], thorough=[("restart", 240, 600), ("snap", 80, 600)]), suites=["l2:restart"]),
     "C11": dict(models=dict(quick=[("MC_HRaft.tla", "MC_Snapshot_q.cfg", 300)], thorough=[("MC_HRaft.tla", "MC_Snapshot_q.cfg", 900)]), families=dict(quick=[("snap", 24, 400), ("restart", 16, 400)], thorough=[("snap", 200, 700), ("restart", 160, 600), ("restore", 60, 500)]), suites=["l1:compaction"]),
     "C12": dict(families=dict(quick=[("chaos", 16, 400), ("snap", 16, 400), ("restart", 12, 400)], thorough=[("chaos", 120, 700), ("snap", 160, 700), ("restart", 120, 600), ("member", 40, 500)])),
     "C13": dict(families=dict(quick=[("lease", 24, 500), ("leasequiet", 8, 400)], thorough=[("lease", 200, 800), ("leasequiet", 48, 1200)])),
@@ -36,6 +37,33 @@ ASSUMPTIONS = [
     "schedules are explored at the granularity of gated interface calls inside a testing/synctest bubble (virtual time)",
     "exhaustive model results hold for the stated small constants only",
 ]
+
+
+# hashicorp/raft takes the process down itself (panic(...) in its own code) when one of its invariants is broken.
+# Such a crash under the simulator is real-code behaviour: it is mapped to the property whose guarantee it voids.
+PANICS = [
+    (re.compile(r"failed to restore snapshot"), "C17", "LibraryPanicInRestore"),
+    (re.compile(r"log not found|failed to get log"), "C02", "LibraryPanicCommittedLogMissing"),
+]
+
+
+def classify_panic(job, out, tracedir):
+    m = re.search(r"panic: (.*)", out)
+    if not m:
+        return None
+    frames = re.findall(r"^(\S+)\(.*\)\n\t(\S+):(\d+)", out, re.M)
+    lib = [f for f in frames if f[0].startswith("github.com/hashicorp/raft.") and "/harness/" not in f[1]]
+    if not lib or not frames or not frames[0][0].startswith(("github.com/hashicorp/raft.", "panic")):
+        return None
+    for rx, prop, pred in PANICS:
+        if rx.search(m.group(1)):
+            os.makedirs(tracedir, exist_ok=True)
+            p = os.path.join(tracedir, "%s-%d.panic.txt" % (job[0], job[1]))
+            with open(p, "w") as w:
+                w.write("family=%s first=%d runs=%d steps=%d\n%s" % (job[0], job[1], job[2], job[3], out))
+            return {"prop": prop, "pred": pred, "detail": "%s at %s:%s" % (m.group(1)[:160], os.path.basename(lib[0][1]), lib[0][2]),
+                    "file": p, "line": 0, "trace": 0}
+    return None
 
 
 def run(pid, tier, seed):
@@ -77,8 +105,13 @@ def run(pid, tier, seed):
     traces, bad = ([], [])
     if plan["families"][tier]:
         traces, bad = vcheck.run_families(bins["sim"], plan["families"][tier], seed, os.path.join(outdir, "traces"))
+    panic_viols = []
     for job, rc, out in bad:
-        problems.append("simulator job %s exited %d: %s" % (job, rc, out[-400:].replace("\n", " | ")))
+        pv = classify_panic(job, out, os.path.join(outdir, "traces"))
+        if pv:
+            panic_viols.append(pv)
+        else:
+            problems.append("simulator job %s exited %d: %s" % (job, rc, out[-400:].replace("\n", " | ")))
     log("SIM %d traces from %s (seed %d)" % (len(traces), [f[0] for f in plan["families"][tier]], seed))
     # 3. TLC judges every trace
     if plan["families"][tier]:
@@ -91,6 +124,7 @@ def run(pid, tier, seed):
     for r in suite_res:
         res["viols"] += r["viols"]
         res["nonconf"] += r["nonconf"]
+    res["viols"] += panic_viols
     mine = [v for v in res["viols"] if v["prop"] == pid]
     others = [v for v in res["viols"] if v["prop"] != pid]
     new, seen_known = [], {}
@@ -167,6 +201,8 @@ L2 = {
                bounds="follower images: log of <=2 (quick) / <=3 (thorough) entries over terms 1..3 with/without a snapshot boundary and trailing entry, current term = last term or +1; requests: term below/equal/above, every prev index 0..len+1 x prev term, 0-2 entries with every non-decreasing term pattern, leaderCommit in {0,2,9}"),
     "vote": dict(quick="L2_vote_q.cfg", thorough="L2_vote.cfg", stride=dict(quick=1, thorough=1),
                  bounds="images: every (CurrentTerm, LastVoteTerm, LastVoteCand) over terms 1..3 x candidates x logs; one RequestVote/RequestPreVote/TimeoutNow with every term/candidate/last-log position/transfer flag, a crash before the 1st..3rd stable write or an injected error on the 1st/2nd failable write, then restart"),
+    "restart": dict(quick="L2_restart_q.cfg", thorough="L2_restart.cfg", stride=dict(quick=1, thorough=1),
+                    bounds="every durable image (log of <=2 / <=3 entries over terms 1..3, with/without snapshot and trailing entry, three vote records) x store flavour {plain, monotonic, commit-tracking with every staged commit index}: NewRaft on it, then crash and NewRaft again"),
     "vote2": dict(quick="L2_vote2.cfg", thorough="L2_vote2.cfg", stride=dict(quick=4, thorough=1),
                   bounds="as 'vote' from the images with CurrentTerm 2 and a 2-entry log, followed by a second fault-free RequestVote from either candidate"),
 }
@@ -335,6 +371,18 @@ def replay(path):
     if not os.path.exists(path):
         log("no such file " + path)
         return 2
+    m = re.search(r"([a-z]+)\.real\.ndjson$", path)
+    if m:
+        # what the real function / component returned for TLC-generated cases: re-judge with TLC
+        kind = m.group(1)
+        rc, out = vcheck.run_tlc("L1Real.tla", "L1Real.cfg", None, {"VERIF_L1_REAL": os.path.abspath(path), "VERIF_L1_KIND": kind}, workers=1, timeout=900)
+        v, n, ends, infos = vcheck.parse_trace_output(out)
+        for x in v[:20]:
+            log("predicate %s/%s false at row %d: %s" % (x["prop"], x["pred"], x["line"], x["detail"][:300]))
+        if v:
+            log("VIOLATION property=%s replay=%s" % (v[0]["prop"], path))
+            return 1
+        return 0 if len(ends) == 1 else 2
     wd = os.path.join(vcheck.OUT, "replay")
     res = vcheck.validate_traces([path], wd, chunks=1)
     for v in res["viols"]:
@@ -354,7 +402,8 @@ def dev(fams, runs, steps):
     outdir = os.path.join(vcheck.OUT, "dev")
     traces, bad = vcheck.run_families(bins["sim"], [(f, runs, steps) for f in fams.split(",")], seed, os.path.join(outdir, "traces"))
     for job, rc, out in bad:
-        log("BAD", job, rc, out[-1500:])
+        pv = classify_panic(job, out, os.path.join(outdir, "traces"))
+        log("BAD", job, rc, ("LIBRARY PANIC -> %s/%s %s" % (pv["prop"], pv["pred"], pv["detail"])) if pv else out[-1500:])
     res = vcheck.validate_traces(traces, os.path.join(outdir, "tlc"))
     log("traces %d ok %d lines %d" % (len(traces), res["traces_ok"], res["lines"]))
     summ = {}
@@ -367,4 +416,9 @@ def dev(fams, runs, steps):
         log("%s %s/%s x%d e.g. %s:%d %s" % (k[0], k[1], k[2], len(vs), os.path.basename(v["file"]), v["line"], v["detail"][:140]))
     for p in res["problems"]:
         log("PROBLEM", p)
+    keep = os.path.join(outdir, "keep")
+    os.makedirs(keep, exist_ok=True)
+    import shutil
+    for f in sorted({v["file"] for v in res["viols"] if v["pred"] not in ("VerifiedOnAckProducedBeforeCall", "FutureNeverResolved", "CallAfterShutdownNotRefused")} | {v["file"] for v in res["nonconf"]}):
+        shutil.copy(f, os.path.join(keep, "s%d-%s" % (seed, os.path.basename(f))))
     return 0
